@@ -22,6 +22,9 @@ TRUSTED = [
     'QuerySetMonad / AttrSetMonad contains, nonzero, negate, count; EXISTS / IN / NOT IN / COUNT(DISTINCT) semantics; object-graph reading of the atoms): tied on every run '
     'structurally on four providers (FROM section, subquery join condition, inner conditions, IS NOT NULL checks, columns) and semantically by comparing whole result lists '
     'of real SQLite on a fixed object graph with sql_join_rows / sql_coll_rows of the model',
+    'hand-written model Model/C01Aggr.v (the aggregate column Monad.count / Monad.aggregate emit, SQL aggregate semantics incl. the builder\'s coalesce(SUM(x), 0), the '
+    'result converter, Pony\'s documented aggregate semantics): aggregate column and conditions tied node for node on four providers, the value real SQLite returns for the '
+    'statement vs sql_aggr over the same table on every run',
 ]
 ASSUMPTIONS = [
     'None rules: None operand of arithmetic / string op / len / abs / min / max -> None; comparison (incl. in / not in) with a None operand -> unknown; '
@@ -36,10 +39,15 @@ ASSUMPTIONS = [
     'v [not] in (m.a for m in g.members if c), v [not] in g.members.a, not (v in (...)), scalar conditions mentioning count(m for m in g.members if c), joined by `and`; '
     'reference: the members are the P objects whose group is g; a None element of the collection never matches, a None left operand makes the comparisons unknown; primary '
     'keys of P are distinct integers; one count-subquery per condition; len(g.members) / count(g.members) (the LEFT JOIN + GROUP BY + HAVING form) and sum / min / max / avg over a collection are not modelled',
+    'aggregates as whole-query results without GROUP BY (Model/C01Aggr.v): select(count() | count(p) | count(e) | sum(e) | sum(distinct(e)) | min(e) | max(e) | avg(e) | '
+    'avg(distinct(e)) for p in P [if c]); reference = Pony\'s documented aggregates over the comprehension: None values skipped, sum of nothing 0, min / max / avg of nothing None, '
+    'count(e) = number of different non-None values (strict Python would raise on None operands and has no count); the average is the exact quotient (float rounding outside); '
+    'e of type int / str (count, min, max) or int / bool (sum, avg); count(<bool>) (counts the rows where it is true), min / max of booleans (search only), several aggregates in '
+    'one query, GROUP BY, HAVING, q.sum() etc. (C24) are outside',
     'and / or results are read as truth values (Python returns an operand; Pony a boolean): a selected `a and b` over non-boolean operands is outside the fragment',
     'startswith / endswith / `in` / `not in` on strings have their own model, theorem (C01_like: any string needle - literal, parameter, attribute, expression - '
     'and haystack, non-NULL) and ties (Model/C01Like.v); outside the theorems, covered by the differential search only: upper / lower, between, comparison of '
-    'conditions, NULL operands of the LIKE family; slices: C25; not covered at all here: several `for` clauses, aggregates (other than the count-subquery of the collection fragment), GROUP BY, ordering, dates, Decimal, float, JSON, '
+    'conditions, NULL operands of the LIKE family; slices: C25; not covered at all here: several `for` clauses, GROUP BY / HAVING, ordering, dates, Decimal, float, JSON, '
     'arrays, hybrid methods, lambdas / generators (decompiler: C03), row decoding of entities',
 ]
 RULE = ('structural: all 1330 depth<=2 expressions over a 14-leaf alphabet (sampled in the quick tier) + sampled depth-3 combinations + seeded random typed '
@@ -226,8 +234,10 @@ LEVEL_TEXT = ('Machine-checked proof (Coq 8.16.1, structural induction on the ex
               'linked SQLite; an end-to-end differential search on real SQLite also covers LIKE / upper / lower / slices / between. Further theorems with their own models, ties '
               'and searches: the LIKE family (C01_like), attribute paths through Optional to-one references with the FROM / LEFT JOIN section (C01_left_join_rows, '
               'C01_select_join_rows), and conditions over a to-many collection - EXISTS / NOT EXISTS, IN / NOT IN subqueries with the IS NOT NULL checks, COUNT(DISTINCT pk) '
-              'scalar subqueries, correlated inner conditions (C01_collection_atom, C01_collection_rows) - each stated except for recorded, refuted defects.')
-LEVEL_NOTE = ('Partial: joins over several loop variables, collection conditions other than the exists / in / count atoms (len(g.members) with GROUP BY / HAVING, sum / min / max over a collection, nested collections), whole-query aggregates, GROUP BY, ordering, dates, Decimal / float, JSON, arrays, hybrid methods, lambdas and generator '
+              'scalar subqueries, correlated inner conditions (C01_collection_atom, C01_collection_rows), and aggregates as whole-query results without GROUP BY - count / sum / '
+              'min / max / avg of a scalar expression over the filtered rows with the DISTINCT forms, NULL skipping and sum of nothing = 0 (C01_aggregate) - each stated except '
+              'for recorded, refuted defects.')
+LEVEL_NOTE = ('Partial: joins over several loop variables, collection conditions other than the exists / in / count atoms (len(g.members) with GROUP BY / HAVING, sum / min / max over a collection, nested collections), aggregates with GROUP BY / HAVING or several per query, ordering, dates, Decimal / float, JSON, arrays, hybrid methods, lambdas and generator '
               'objects (decompiler), entity row decoding are outside the theorem and outside this check. Trusted: Coq kernel + vm_compute; the hand-written translation '
               'model (tied structurally on every run); documentation models of PostgreSQL / MySQL (nothing executes there); the reference reading of None written from '
               'the property statement.')
